@@ -233,8 +233,8 @@ def check_groups(ctx, name, obj, site, icls, coords, hist):
 def check_intrinsic(ctx, name, obj, regime, site, icls, coords, hist):
     """Independent of the list model: decode ids from the primary label of every axis; all other labels and all
     cells must be those of the decoded entities (unique-label regime only)."""
-    if regime.kind != "unique":
-        return None
+    if regime.kind != "unique" or any(regime.unnamed[a] for a in axes_of(name)):
+        return None       # entities joined without a name cannot be decoded from their (None) primary label
     ids = {}
     for a in axes_of(name):
         v = getattr(obj, LM.PRIMARY[a], None)
@@ -374,8 +374,12 @@ def step_(ctx, g, name, obj, ids, regime, nxt, hist, coords, sibs):
         raw = name != "DenseBreedingValueMatrix" and g.random() < 0.4
         form = "%s index, %d-entity block, %s operand" % ("scalar" if posform == "int" else "position-array", k, "raw" if raw else "matrix")
 
+        omit = raw and axis in ("taxa", "vrnt") and g.random() < 0.3
+        if omit:   # name argument left out: the new entities get the documented None placeholder; the history ends here
+            regime.unnamed[axis].update(nw); new = LM.insert_ids(cur, pos, nw); form += ", names omitted"
+
         def val(ops_):
-            return (ops_[0].mat, rawkw(ops_[0])) if raw else (ops_[0], {})
+            return (ops_[0].mat, {a_: b_ for a_, b_ in rawkw(ops_[0]).items() if not (omit and a_ == LM.PRIMARY[axis])}) if raw else (ops_[0], {})
         variants = [("insert" + S, "insert" + S, False, lambda o, q: getattr(o, "insert" + S)(pos, val(q)[0], **val(q)[1])),
                     ("insert(axis)", "insert", False, lambda o, q: o.insert(pos, val(q)[0], axis=ax, **val(q)[1])),
                     ("incorp" + S, "incorp" + S, True, lambda o, q: getattr(o, "incorp" + S)(pos, val(q)[0], **val(q)[1])),
@@ -386,8 +390,12 @@ def step_(ctx, g, name, obj, ids, regime, nxt, hist, coords, sibs):
         raw = name != "DenseBreedingValueMatrix" and g.random() < 0.4
         form = "%s operand" % ("raw" if raw else "matrix")
 
+        omit = raw and axis in ("taxa", "vrnt") and g.random() < 0.3
+        if omit:
+            regime.unnamed[axis].update(nw); form += ", names omitted"
+
         def val(ops_):
-            return (ops_[0].mat, rawkw(ops_[0])) if raw else (ops_[0], {})
+            return (ops_[0].mat, {a_: b_ for a_, b_ in rawkw(ops_[0]).items() if not (omit and a_ == LM.PRIMARY[axis])}) if raw else (ops_[0], {})
         variants = [("adjoin" + S, "adjoin" + S, False, lambda o, q: getattr(o, "adjoin" + S)(val(q)[0], **val(q)[1])),
                     ("adjoin(axis)", "adjoin", False, lambda o, q: o.adjoin(val(q)[0], axis=ax, **val(q)[1])),
                     ("append" + S, "append" + S, True, lambda o, q: getattr(o, "append" + S)(val(q)[0], **val(q)[1])),
@@ -532,6 +540,8 @@ def step_(ctx, g, name, obj, ids, regime, nxt, hist, coords, sibs):
     gok = check_groups(ctx, name, res, site, icls, coords, list(hist))
     if not gok or bad or (dec is not None and dec != {a: list(v) for a, v in ids2.items()}):
         return build(name, ids2, regime), ids2, "resync"      # resynchronisation rule
+    if any(regime.unnamed[a] for a in axes_of(name)):
+        return res, ids2, "final"     # None names cannot be sorted or grouped by the library: judged above, history ends
     if not ref[2]:
         # the receiver copy the result was derived from stays alive as a sibling (it may share arrays with the result)
         sibs.append((ref[5], {a: list(v) for a, v in ids.items()}, len(hist) - 1))
@@ -769,6 +779,9 @@ def one_history(ctx, c):
             raise
         if note == "resync":
             ctx.sumnote("resynchronisations")
+        if any(regime.unnamed[a] for a in regime.unnamed):
+            ctx.sumnote("joins of raw arrays with the name argument omitted")
+            break
         if max(len(v) for v in ids.values()) > 14:
             break
     ctx.case("%s/%s" % (name, regime.kind), name, regime.kind, tuple(hist), trivial=len(hist) == 0)
